@@ -304,29 +304,33 @@ func sameStrings(a, b []string) (bool, int) {
 	return true, -1
 }
 
-// canonFloats replaces every \x01text\x01 of a model print by FormatFloat(ParseFloat(text)).
+var floatMark = []byte{1, 127, 2}
+
+// canonFloats replaces every <mark>text<mark> of a model print of a PARSED object by
+// FormatFloat(ParseFloat(text)).
 func canonFloats(b []byte) []byte {
-	if bytes.IndexByte(b, 1) < 0 {
+	if !bytes.Contains(b, floatMark) {
 		return b
 	}
 	var out []byte
 	for {
-		i := bytes.IndexByte(b, 1)
+		i := bytes.Index(b, floatMark)
 		if i < 0 {
 			return append(out, b...)
 		}
-		j := bytes.IndexByte(b[i+1:], 1)
+		j := bytes.Index(b[i+3:], floatMark)
 		if j < 0 {
 			return append(out, b...)
 		}
 		out = append(out, b[:i]...)
-		f, _ := strconv.ParseFloat(string(b[i+1:i+1+j]), 64)
+		f, _ := strconv.ParseFloat(string(b[i+3:i+3+j]), 64)
 		out = append(out, fmtFloat(f)...)
-		b = b[i+j+2:]
+		b = b[i+j+6:]
 	}
 }
 
-func unhexModel(s string) []byte {
+// unhexModel decodes a model print; tagged = it is the print of a parsed object.
+func unhexModel(s string, tagged ...bool) []byte {
 	if s == "panic" {
 		return []byte("\x00panic")
 	}
@@ -334,7 +338,10 @@ func unhexModel(s string) []byte {
 	if err != nil {
 		return []byte("\x00badhex " + s)
 	}
-	return canonFloats(b)
+	if len(tagged) > 0 && tagged[0] {
+		return canonFloats(b)
+	}
+	return b
 }
 
 // goText normalises a Go print for comparison with the model ("\x00panic: msg" -> "\x00panic").
@@ -533,8 +540,8 @@ func (w *work) judgeExpr() {
 			}
 		} else if mok && len(mf) == 2 {
 			gs, gb := goText(safe(func() string { return y.String() })), goText(safe(func() string { return y.BracketString() }))
-			if !bytes.Equal(unhexModel(mf[0]), gs) || !bytes.Equal(unhexModel(mf[1]), gb) {
-				report("disagreement", "expr:parse-reprint:"+mode, "re-parsed "+q(text)+": model prints "+q(unhexModel(mf[0]))+" / "+q(unhexModel(mf[1]))+", implementation "+q(gs)+" / "+q(gb), c, nil)
+			if !bytes.Equal(unhexModel(mf[0], true), gs) || !bytes.Equal(unhexModel(mf[1], true), gb) {
+				report("disagreement", "expr:parse-reprint:"+mode, "re-parsed "+q(text)+": model prints "+q(unhexModel(mf[0], true))+" / "+q(unhexModel(mf[1], true))+", implementation "+q(gs)+" / "+q(gb), c, nil)
 			}
 		}
 		// oracle
@@ -685,11 +692,11 @@ func (w *work) judgeEqn() {
 			var mp []byte
 			switch i {
 			case 0:
-				mp = unhexModel(mf[0])
+				mp = unhexModel(mf[0], true)
 			case 1:
-				mp = unhexModel(mf[1])
+				mp = unhexModel(mf[1], true)
 			case 2:
-				mp = unhexModel(mf[0])
+				mp = unhexModel(mf[0], true)
 			}
 			if !bytes.Equal(mp, goText(again)) {
 				report("disagreement", "eqn:parse-reprint:"+names[i], "re-parsed "+q(text)+": model prints "+q(mp)+", implementation "+q(goText(again)), c, nil)
@@ -773,8 +780,8 @@ func (w *work) judgeText() {
 		}
 	} else if mok && len(mf) == 2 {
 		gs, gb := goText(safe(func() string { return y.String() })), goText(safe(func() string { return y.BracketString() }))
-		if !bytes.Equal(unhexModel(mf[0]), gs) || !bytes.Equal(unhexModel(mf[1]), gb) {
-			report("disagreement", "text:expr-reprint", "parsed "+q(c.Text)+": model prints "+q(unhexModel(mf[0]))+" / "+q(unhexModel(mf[1]))+", implementation "+q(gs)+" / "+q(gb), c, nil)
+		if !bytes.Equal(unhexModel(mf[0], true), gs) || !bytes.Equal(unhexModel(mf[1], true), gb) {
+			report("disagreement", "text:expr-reprint", "parsed "+q(c.Text)+": model prints "+q(unhexModel(mf[0], true))+" / "+q(unhexModel(mf[1], true))+", implementation "+q(gs)+" / "+q(gb), c, nil)
 		}
 	}
 	// equation
@@ -790,8 +797,8 @@ func (w *work) judgeText() {
 		g := [3][]byte{goText(safe(func() string { return e2.String() })), goText(safe(func() string { return e2.Script().String() })),
 			goText(safe(func() string { return e2.Filter().String() }))}
 		for i := 0; i < 3; i++ {
-			if !bytes.Equal(unhexModel(mf[i]), g[i]) {
-				report("disagreement", "text:eqn-reprint", fmt.Sprintf("parsed %s: form %d: model prints %s, implementation %s", q(c.Text), i, q(unhexModel(mf[i])), q(g[i])), c, nil)
+			if !bytes.Equal(unhexModel(mf[i], true), g[i]) {
+				report("disagreement", "text:eqn-reprint", fmt.Sprintf("parsed %s: form %d: model prints %s, implementation %s", q(c.Text), i, q(unhexModel(mf[i], true)), q(g[i])), c, nil)
 				break
 			}
 		}
@@ -805,8 +812,8 @@ func (w *work) judgeText() {
 		}
 	} else if mok && len(mf) == 1 {
 		g := goText(safe(func() string { return f2.String() }))
-		if !bytes.Equal(unhexModel(mf[0]), g) {
-			report("disagreement", "text:filter-reprint", "parsed "+q(c.Text)+": model prints "+q(unhexModel(mf[0]))+", implementation "+q(g), c, nil)
+		if !bytes.Equal(unhexModel(mf[0], true), g) {
+			report("disagreement", "text:filter-reprint", "parsed "+q(c.Text)+": model prints "+q(unhexModel(mf[0], true))+", implementation "+q(g), c, nil)
 		}
 	}
 }
